@@ -94,11 +94,12 @@ NThetaRule(L) == LET n == L + 1
 (* declarative: c(l,m) for m >= 0 copied, c(l,-m) = (-1)^m conj c(l,m) *)
 Complete(L, c) ==
   LET co == CplxOrder(L)
-  IN [i \in 1..NLM(L) |->
-        LET l == co[i][1]
-            m == co[i][2]
-        IN IF m >= 0 THEN c[IdxReal(L, l, m)]
-           ELSE GScale(ParitySign(m), GConj(c[IdxReal(L, l, -m)]))]
+      d == [i \in 1..NLM(L) |->
+             LET l == co[i][1]
+                 m == co[i][2]
+             IN IF m >= 0 THEN c[IdxReal(L, l, m)]
+                ELSE GScale(ParitySign(m), GConj(c[IdxReal(L, l, -m)]))]
+  IN SubSeq(d, 1, NLM(L))                        \* (SubSeq makes TLC evaluate the function once)
 (* algorithm-shaped (expand_coeffs_cython): one loop over plm_idx writing two slots *)
 Unset == <<0, 0, 0>>                              \* np.empty: a slot never written
 CompleteStep(out, c, k, lm) ==
@@ -172,9 +173,13 @@ ObsWell(o) == Len(o) \in {3, 6} /\ FxWell(ObsRe(o)) /\ FxWell(ObsIm(o))
 (* < 1e-12 of M (L <= 64); the mutants of mutants/C07_* change values by O(M).               *)
 RelQuanta(M) == M[1] * 1024 + M[2] \div 1024
 AbsQuanta == 4
-Within(x, y, tol) == LET d == FxAbs(FxSub(x, y))          \* |x - y| <= tol quanta, tol < 2^30
-                     IN d[1] = 0 /\ d[2] < 1024 /\ d[2] * FB + d[3] <= tol
-ObsWithin(o, re, im, tol) == Within(ObsRe(o), re, tol) /\ Within(ObsIm(o), im, tol)
+Within(x, y, tol) ==                                       \* |x - y| <= tol quanta, tol < 2^30
+  \/ x = y
+  \/ /\ FxWell(x)
+     /\ LET d == FxAbs(FxSub(x, y)) IN d[1] = 0 /\ d[2] < 1024 /\ d[2] * FB + d[3] <= tol
+ObsWithin(o, re, im, tol) ==
+  \/ Len(o) = 6 /\ o = <<re[1], re[2], re[3], im[1], im[2], im[3]>>       \* fast path: equal to the quantum
+  \/ Len(o) \in {3, 6} /\ Within(ObsRe(o), re, tol) /\ Within(ObsIm(o), im, tol)
 
 (* ---- linear algebra on reference harmonics -------------------------------- *)
 (* chan: sequence of <<l, m>> (native channels of `kind`); Y: one flat complex fixed-point   *)
